@@ -2,6 +2,7 @@ package registry
 
 import (
 	"fmt"
+	"math"
 
 	beacon "github.com/oasisprotocol/oasis-core/go/beacon/api"
 	"github.com/oasisprotocol/oasis-core/go/common/cbor"
@@ -343,6 +344,10 @@ func (app *Application) registerNode( // nolint: gocyclo
 		} else {
 			additionalEpochs = 0
 		}
+	}
+	// The number of runtime epochs to pay for must fit the (signed) gas multiplier.
+	if uint64(additionalEpochs) > uint64(math.MaxInt64)/uint64(len(paidRuntimes)+1) {
+		return api.ErrGasOverflow
 	}
 	feeCount := len(paidRuntimes) * int(additionalEpochs)
 	if err = ctx.Gas().UseGas(feeCount, registry.GasOpRuntimeEpochMaintenance, params.GasCosts); err != nil {
